@@ -1,6 +1,253 @@
-// Walk commands (filled in below).
-pub fn cmd_walk(_args: &[&str]) -> String {
-    "unimplemented".into()
+// Walk commands of waxprobe: real walks over on-disk trees through the public API, with every
+// combinator layer observed.
+//
+//   walk <base> <mode> <link> <min> <max> <layer>...
+//     base   hex path of the directory given to the walk
+//     mode   `P` (Path::walk) or `G<hex glob>` (Glob::walk)
+//     link   `F` (LinkBehavior::ReadFile) or `T` (ReadTarget)
+//     min, max   depth bounds or `-`
+//     layer  `N<hex>[,<hex>...]`  not(expression) / not(any([...]))
+//            `F[<hex relative path>:<T|F>,...]`  filter_entry with a verdict table keyed by the relative
+//            path the entry presents to the filter; every F layer records what it observes
+//
+// Output: `ok\tyield=<items>\tobs0=<...>\tobs1=<...>` (one obs per F layer, in stack order).
+use std::cell::RefCell;
+use std::collections::HashMap;
+use std::path::{Path, PathBuf};
+use std::rc::Rc;
+
+use wax::walk::{
+    DepthBehavior, DepthMax, DepthMin, DepthMinMax, Entry, EntryResidue, FileIterator, GlobEntry,
+    LinkBehavior, PathExt, TreeEntry, WalkBehavior,
+};
+use wax::Glob;
+
+use crate::{hex, unhex};
+
+fn path_hex(path: &Path) -> String {
+    hex(&path.to_string_lossy())
+}
+
+fn kind(entry: &dyn Entry) -> &'static str {
+    let file_type = entry.file_type();
+    if file_type.is_dir() {
+        "d"
+    }
+    else if file_type.is_symlink() {
+        "l"
+    }
+    else {
+        "f"
+    }
+}
+
+pub trait Describe: Entry {
+    fn matched_text(&self) -> Option<(String, String)>;
+}
+
+impl Describe for TreeEntry {
+    fn matched_text(&self) -> Option<(String, String)> {
+        None
+    }
+}
+
+impl Describe for GlobEntry {
+    fn matched_text(&self) -> Option<(String, String)> {
+        Some((
+            self.matched().complete().to_string(),
+            self.to_candidate_path().as_ref().to_string(),
+        ))
+    }
+}
+
+#[derive(Clone)]
+enum Layer {
+    Not(Vec<String>),
+    Filter(HashMap<String, EntryResidue>),
+}
+
+type Observations = Rc<RefCell<Vec<Vec<String>>>>;
+
+fn collect<I>(walk: I) -> String
+where
+    I: FileIterator,
+    I::Entry: Describe,
+{
+    let mut items = vec![];
+    for item in walk {
+        match item {
+            Ok(entry) => {
+                let (root, relative) = entry.root_relative_paths();
+                let (matched, candidate) = match entry.matched_text() {
+                    Some((matched, candidate)) => (hex(&matched), hex(&candidate)),
+                    None => ("-".to_string(), "-".to_string()),
+                };
+                items.push(format!(
+                    "e|{}|{}|{}|{}|{}|{}|{}",
+                    path_hex(entry.path()),
+                    entry.depth(),
+                    path_hex(root),
+                    path_hex(relative),
+                    kind(&entry),
+                    matched,
+                    candidate,
+                ));
+            },
+            Err(error) => {
+                items.push(format!(
+                    "x|{}|{}",
+                    error.path().map_or_else(|| "-".to_string(), path_hex),
+                    error.depth(),
+                ));
+            },
+        }
+    }
+    items.join(";")
+}
+
+macro_rules! drive {
+    ($name:ident, $next:ident) => {
+        fn $name<I>(walk: I, layers: &[Layer], observations: &Observations) -> Result<String, String>
+        where
+            I: 'static + FileIterator,
+            I::Entry: 'static + Describe,
+            I::Residue: 'static,
+        {
+            match layers.split_first() {
+                None => Ok(collect(walk)),
+                Some((Layer::Not(expressions), rest)) => {
+                    if expressions.len() == 1 {
+                        let walk = walk
+                            .not(expressions[0].as_str())
+                            .map_err(|error| format!("err {}", error))?;
+                        $next(walk, rest, observations)
+                    }
+                    else {
+                        let any = wax::any(expressions.iter().map(|expression| expression.as_str()))
+                            .map_err(|error| format!("err {}", error))?;
+                        let walk = walk.not(any).map_err(|error| format!("err {}", error))?;
+                        $next(walk, rest, observations)
+                    }
+                },
+                Some((Layer::Filter(table), rest)) => {
+                    let index = {
+                        let mut observations = observations.borrow_mut();
+                        observations.push(vec![]);
+                        observations.len() - 1
+                    };
+                    let table = table.clone();
+                    let observations_ = observations.clone();
+                    let walk = walk.filter_entry(move |entry: &dyn Entry| {
+                        let (_, relative) = entry.root_relative_paths();
+                        let relative = relative.to_string_lossy().to_string();
+                        observations_.borrow_mut()[index].push(format!(
+                            "{}|{}|{}|{}",
+                            hex(&relative),
+                            entry.depth(),
+                            kind(entry),
+                            path_hex(entry.path()),
+                        ));
+                        table.get(&relative).copied()
+                    });
+                    $next(walk, rest, observations)
+                },
+            }
+        }
+    };
+}
+
+fn drive0<I>(walk: I, layers: &[Layer], _: &Observations) -> Result<String, String>
+where
+    I: 'static + FileIterator,
+    I::Entry: 'static + Describe,
+    I::Residue: 'static,
+{
+    if layers.is_empty() {
+        Ok(collect(walk))
+    }
+    else {
+        Err("too-many-layers".into())
+    }
+}
+
+drive!(drive1, drive0);
+drive!(drive2, drive1);
+drive!(drive3, drive2);
+drive!(drive4, drive3);
+drive!(drive5, drive4);
+drive!(drive6, drive5);
+
+fn behavior(link: &str, min: &str, max: &str) -> WalkBehavior {
+    let link = match link {
+        "T" => LinkBehavior::ReadTarget,
+        _ => LinkBehavior::ReadFile,
+    };
+    let min: Option<usize> = min.parse().ok();
+    let max: Option<usize> = max.parse().ok();
+    let depth: DepthBehavior = match (min, max) {
+        (Some(min), Some(max)) => DepthMinMax::from_depths_or_max(min, max),
+        (Some(min), None) => DepthMin::from_min_or_unbounded(min),
+        (None, Some(max)) => DepthMax(max).into(),
+        (None, None) => DepthBehavior::Unbounded,
+    };
+    WalkBehavior { depth, link }
+}
+
+fn parse_layer(text: &str) -> Layer {
+    let (head, body) = text.split_at(1);
+    match head {
+        "N" => Layer::Not(body.split(',').map(unhex).collect()),
+        _ => Layer::Filter(
+            body.split(',')
+                .filter(|item| !item.is_empty())
+                .map(|item| {
+                    let (path, verdict) = item.split_once(':').expect("bad filter table");
+                    (
+                        unhex(path),
+                        if verdict == "T" {
+                            EntryResidue::Tree
+                        }
+                        else {
+                            EntryResidue::File
+                        },
+                    )
+                })
+                .collect(),
+        ),
+    }
+}
+
+pub fn cmd_walk(args: &[&str]) -> String {
+    let base = PathBuf::from(unhex(args[0]));
+    let mode = args[1];
+    let behavior = behavior(args[2], args[3], args[4]);
+    let layers: Vec<Layer> = args[5..].iter().map(|layer| parse_layer(layer)).collect();
+    let observations: Observations = Rc::new(RefCell::new(vec![]));
+    let result = if let Some(expression) = mode.strip_prefix('G') {
+        let expression = unhex(expression);
+        match Glob::new(&expression) {
+            Ok(glob) => {
+                let anchor = glob.verif_anchor(base.clone());
+                drive6(glob.walk_with_behavior(base, behavior), &layers, &observations).map(
+                    |items| format!("{}\tanchor={}|{}", items, path_hex(&anchor.0), anchor.1),
+                )
+            },
+            Err(error) => Err(format!("err {}", error)),
+        }
+    }
+    else {
+        drive6(base.walk_with_behavior(behavior), &layers, &observations)
+    };
+    match result {
+        Ok(items) => {
+            let mut output = format!("ok\tyield={}", items);
+            for (index, observed) in observations.borrow().iter().enumerate() {
+                output.push_str(&format!("\tobs{}={}", index, observed.join(";")));
+            }
+            output
+        },
+        Err(error) => error,
+    }
 }
 
 pub fn cmd_tree(_args: &[&str]) -> String {
